@@ -50,6 +50,10 @@ func runC07(p *Program, r *Report) {
 	c07funnel(p, r, "C07.funnel")
 	c05pair(p, r, env, "C07.pair")
 	cPoolClients(p, r, "C07.clients")
+	// the channel lock itself: a lock that lets a refused caller release it voids every "held" fact above (seed C07-M)
+	shareAs(r, "C06.recheck", "C07.mu", func(sub *Report) { c06closed(p, sub, "C07.closedpoll") })
+	// the decompressor and its pooled bufio reader are told exactly the transport's count (seed C07-N)
+	c04unmask(p, r, "C07.unmask")
 }
 
 func c07get(p *Program, r *Report, rule string) {
@@ -122,7 +126,60 @@ func c07get(p *Program, r *Report, rule string) {
 			if ri < 0 || pi < 0 || ri > pi || argKey(pa.Events[pi], 1) != "param:b" {
 				return false, "no Reset before Put"
 			}
+			// nothing refills or replaces the buffer between the Reset and the Put: the next taker relies on Len() == 0
+			for _, e := range pa.Events[ri+1 : pi] {
+				switch e.Kind {
+				case "store":
+					if strings.Contains(e.AddrK, "param:b") || strings.HasPrefix(e.AddrK, "Buffer.") || strings.HasPrefix(e.AddrK, "bytes.Buffer") {
+						return false, "the buffer is written after its Reset (" + e.AddrK + " = " + keyOf(e.Val) + ")"
+					}
+				case "call":
+					if e.Callee == "(*bytes.Buffer).Cap" || e.Callee == "(*bytes.Buffer).Len" {
+						continue
+					}
+					for i := range e.Args {
+						if argKey(e, i) == "param:b" {
+							return false, e.Callee + " on the buffer after its Reset"
+						}
+					}
+				}
+			}
 			return true, ""
+		})
+	}
+	if fn := p.Func("bpool.Get"); fn != nil {
+		p.forAllPaths(r, rule, fn, "pooled or empty", Opts{}, "bpool.Get returns the buffer taken from the pool (Put has reset it) or, on a miss, a new empty bytes.Buffer", func(pa *Path) (bool, string) {
+			if pa.End != "return" {
+				return true, ""
+			}
+			get := pa.Calls("(*sync.Pool).Get")
+			if len(get) != 1 {
+				return false, "does not take from the pool exactly once"
+			}
+			ret := stripConvAll(pa.Ret[0])
+			if strings.Contains(ret.Key(), get[0].Res.Key()) {
+				return true, ""
+			}
+			if ad, ok := ret.(*Addr); ok && isLocalAllocKey(ad.K) {
+				for _, e := range pa.Events {
+					if e.Kind == "store" && strings.HasPrefix(e.AddrK, ad.K) {
+						return false, "the fresh buffer is not empty: " + e.AddrK + " = " + keyOf(e.Val)
+					}
+				}
+				return true, ""
+			}
+			if nb := pa.Calls("bytes.NewBuffer"); len(nb) == 1 && ret.Key() == nb[0].Res.Key() {
+				if c, ok := nb[0].Args[0].(*Const); ok && c.IsNil {
+					return true, ""
+				}
+				if sl, ok := stripConvAll(nb[0].Args[0]).(*Expr); ok && sl.Op == "makeslice" && len(sl.Args) >= 1 {
+					if n, ok := avInt(sl.Args[0]); ok && n == 0 {
+						return true, ""
+					}
+				}
+				return false, "fresh buffer built over " + argKey(nb[0], 0)
+			}
+			return false, "returns " + ret.Key()
 		})
 	}
 	if fn := p.Func("slidingWindow.close"); fn != nil {
@@ -667,6 +724,9 @@ func runC15(p *Program, r *Report) {
 	c02flush(p, r, "C15.flush")
 	c05leaf(p, r, getLockEnv(p), "C15.leaf")
 	c03ctl(p, r, "C15.len")
+	// a control frame that was handled (pong sent, unsolicited pong ignored) must leave the timeout watcher disarmed, or the
+	// end of handleControl's own context closes the connection (seed C15-M)
+	shareAs(r, "C10.disarm", "C15.disarm", func(sub *Report) { armingRules(p, sub, false, true) })
 	// activePings accessed only under its mutex (shared with C05.guard)
 	c05guard(p, r, getLockEnv(p), "C15.guard", map[string]bool{"Conn.activePings": true})
 	cAfterClose(p, r, "C15.after-close")
